@@ -314,6 +314,9 @@ func runC02(c *fw.Check) {
 		bound = 3
 		c.SetBudget(45 * 60 * 1e9)
 	}
+	if c.Deep() {
+		bound = 4
+	}
 	entries := gen.Catalogue()
 	all, batches := genBatches(entries, bound, 40)
 	c.Rule = fmt.Sprintf("same generated module space as C01 (all variants with <=%d deviations of a %d-production catalogue, including constructs LLVM 14 does not know) x spelling alphabet {plain, every name redundantly quoted, comments+irregular whitespace everywhere, reversed field order in every specialised metadata node, reversed top-level order}: y=print(parse(x)) must be accepted, print(parse(y)) must equal y byte for byte, the two parsed modules must have the same structural digest (reflection walk with pointer identity made explicit), and pure respellings must print the same y. The same for all two-variant modules (every ordered pair of productions, every ordered pair of <=1-deviation variants of one production, twins). No LLVM involved. distinct = (variant or pair, spelling).", bound, len(entries))
